@@ -525,9 +525,9 @@ func main() {
 	for i := 0; i < f.N; i++ {
 		probes = append(probes, genProbe(r.Fork(i)))
 	}
-	G, K := 6, 4
+	G, K := 8, 6
 	if f.Tier == "thorough" {
-		G, K = 10, 10
+		G, K = 12, 12
 	}
 	o.Stats["grid_G"], o.Stats["grid_K"] = G, K
 	if err := run(f, o, probes, G, K); err != nil {
